@@ -15,8 +15,10 @@ def _apply(op, a, b):
 @scenario
 def tt_binop(E, s):
     """x (op) y for TT tensors, with torch-style trailing-dimension / size-1 broadcasting"""
-    x, xc = tt_input(E, 'x', s['N1'], s['R1'], s['dtype'])
-    y, yc = tt_input(E, 'y', s['N2'], s['R2'], s.get('dtype2', s['dtype']))
+    x, xc = tt_input(E, 'x', s['N1'], s['R1'], s['dtype'], via=s.get('via'))
+    y, yc = tt_input(E, 'y', s['N2'], s['R2'], s.get('dtype2', s['dtype']), via=s.get('via'))
+    if s.get('alias'):
+        y, yc = x, xc          # x (op) x: the operands alias each other
     ref = _apply(s['op'], dense(E, xc), dense(E, yc))
     z = _apply(s['op'], x, y)
     E.true('is_tt', isinstance(z, E.tt.TT))
@@ -33,12 +35,13 @@ def tt_binop(E, s):
     if s.get('dtype2', s['dtype']) == s['dtype']:
         E.true('dtype', all(E.dtname(c) == s['dtype'] for c in z.cores))
     E.eq('full', z.full(), ref)
+    E.eq('operand_x_intact', dense(E, x.cores), dense(E, xc))
 
 
 @scenario
 def tt_scalar(E, s):
     """TT (op) scalar from either side, unary ops, division by a scalar"""
-    x, xc = tt_input(E, 'x', s['N'], s['R'], s['dtype'])
+    x, xc = tt_input(E, 'x', s['N'], s['R'], s['dtype'], via=s.get('via'))
     op = s['op']
     xd = dense(E, xc)
     if op in ('neg', 'pos'):
@@ -81,8 +84,8 @@ def tt_scalar(E, s):
 
 @scenario
 def tt_kron(E, s):
-    x, xc = tt_input(E, 'x', s['N1'], s['R1'], s['dtype'])
-    y, yc = tt_input(E, 'y', s['N2'], s['R2'], s['dtype'])
+    x, xc = tt_input(E, 'x', s['N1'], s['R1'], s['dtype'], via=s.get('via'))
+    y, yc = tt_input(E, 'y', s['N2'], s['R2'], s['dtype'], via=s.get('via'))
     how = s.get('how', 'pow')
     if how == 'pow':
         z = x ** y
@@ -109,7 +112,7 @@ def tt_kron(E, s):
 @scenario
 def tt_full(E, s):
     """full() against the independent contraction (tensors and operators)"""
-    x, xc = tt_input(E, 'x', s['N'], s['R'], s['dtype'], s.get('M'))
+    x, xc = tt_input(E, 'x', s['N'], s['R'], s['dtype'], s.get('M'), via=s.get('via'))
     f = x.full()
     E.eq('value', f, dense(E, xc))
     E.true('dtype', E.dtname(f) == s['dtype'])
